@@ -253,7 +253,7 @@ for case, a, outs in pmap(runcase, cases):
         execs += 1
         label = "%s/%s GOTRACEBACK=%s flags=%s" % (k, c, tb, fl)
         if t.returncode != a.returncode:
-            R.violation("exit-status:%s:%s" % (k, c), "%s: -tiny binary exits %d, regular build exits %d" % (label, t.returncode, a.returncode), {"main.go": PROG, "dep/dep.go": DEP})
+            R.violation("exit-status:GOTRACEBACK=crash" if tb == "crash" and a.returncode == -6 and t.returncode == 2 else "exit-status:%s:%s" % (k, c), "%s: -tiny binary exits %d, regular build exits %d" % (label, t.returncode, a.returncode), {"main.go": PROG, "dep/dep.go": DEP})
         if t.stdout != a.stdout:
             R.violation("stdout:%s:%s" % (k, c), "%s: stdout %r vs regular %r" % (label, t.stdout[-600:], a.stdout[-600:]), {"main.go": PROG, "dep/dep.go": DEP})
         lines = [l for l in t.stderr.decode(errors="replace").split("\n") if l != ""]
